@@ -1,0 +1,6 @@
+//go:build !verif
+
+package tree
+
+// verifInCommit is a hook of the runtime-monitoring harness (see verif_hooks.go, build tag verif); without the tag it is empty.
+func verifInCommit() {}
